@@ -271,3 +271,55 @@ theorem Inv0.until_event {lv : Bool} {s : KState ℚ σ} (hi : Inv0 lv s) (e : E
   Inv.addCb hi e .stop (fun p h => by cases h) (fun iv h => by cases h) (fun c h => by cases h)
 
 end Once
+
+namespace Once
+variable {σ : Type}
+
+/-! ## processed for good -/
+
+/-- the step that pops `q` leaves its event processed -/
+theorem step_processes (body : σ → Resume → Burst ℚ σ) (fuel : Nat) (s s' : KState ℚ σ) (q : QEntry ℚ)
+    (rest : List (QEntry ℚ)) (hq : popMin s.agenda = some (q, rest)) (hlt : q.ev < s.events.size)
+    (hs : (step body fuel s).state? = some s') : (s'.ev q.ev).cbs = none ∧ q.ev < s'.events.size := by
+  have ho : EvMono s (_root_.openEvent s q rest) := by
+    have := EvMono.of_setEv s q.ev { s.ev q.ev with cbs := none } rfl (fun _ => rfl)
+    exact ⟨this.size_le, this.kind, this.processed⟩
+  have hopen : ((_root_.openEvent s q rest).ev q.ev).cbs = none := by
+    show ((s.setEv q.ev { s.ev q.ev with cbs := none }).ev q.ev).cbs = none
+    rw [KState.ev_setEv, if_pos ⟨rfl, hlt⟩]
+  have hlt' : q.ev < (_root_.openEvent s q rest).events.size := Nat.lt_of_lt_of_le hlt ho.size_le
+  unfold _root_.step at hs
+  rw [hq] at hs
+  simp only at hs
+  split at hs
+  · cases hs; exact ⟨hopen, hlt'⟩
+  · rename_i cbs _
+    rw [closeEvent_state] at hs
+    cases hs
+    have := EvMono.krel.foldCbs body fuel q.ev cbs { s := _root_.openEvent s q rest }
+    exact ⟨this.processed q.ev hlt' hopen, Nat.lt_of_lt_of_le hlt' this.size_le⟩
+
+/-- one step never un-processes an event -/
+theorem step_evMono (body : σ → Resume → Burst ℚ σ) (fuel : Nat) (s s' : KState ℚ σ)
+    (hs : (step body fuel s).state? = some s') : EvMono s s' := by
+  unfold _root_.step at hs
+  split at hs
+  · cases hs
+  · rename_i q rest hq
+    have ho : EvMono s (_root_.openEvent s q rest) := by
+      have := EvMono.of_setEv s q.ev { s.ev q.ev with cbs := none } rfl (fun _ => rfl)
+      exact ⟨this.size_le, this.kind, this.processed⟩
+    split at hs
+    · cases hs; exact ho
+    · rename_i cbs _
+      rw [closeEvent_state] at hs
+      cases hs
+      exact ho.trans (EvMono.krel.foldCbs body fuel q.ev cbs { s := _root_.openEvent s q rest })
+
+theorem reach_evMono (body : σ → Resume → Burst ℚ σ) (fuel : Nat) (s s' : KState ℚ σ)
+    (hr : KReach body fuel s s') : EvMono s s' := by
+  induction hr with
+  | init => exact EvMono.refl _
+  | step _ hs ih => exact ih.trans (step_evMono body fuel _ _ hs)
+
+end Once
